@@ -142,6 +142,7 @@ func main() {
 	probe := flag.String("probe", "", "run one spec given as JSON and print the result")
 	replay := flag.String("replay", "", "re-run the spec of a replay file (JSON with a 'case' holding 'spec')")
 	only := flag.String("only", "", "restrict to one component")
+	corpus := flag.String("corpus", "", "JSON array of run specs (past witnesses) executed in addition, first")
 	verbose := flag.Bool("v", false, "sarama log to stderr")
 	flag.Parse()
 	if *verbose {
@@ -216,6 +217,19 @@ func main() {
 		}
 	} else {
 		specs = makeSpecs(*seed, *tier == "thorough", *n)
+		if *corpus != "" {
+			if data, err := ioutil.ReadFile(*corpus); err == nil {
+				var cs []Spec
+				if err := json.Unmarshal(data, &cs); err == nil {
+					for i := range cs {
+						cs[i].ID = 100000 + i
+					}
+					specs = append(cs, specs...)
+				} else {
+					fmt.Printf("NOTE corpus %s unreadable: %v\n", *corpus, err)
+				}
+			}
+		}
 	}
 	if *only != "" {
 		var f []Spec
